@@ -217,7 +217,10 @@ def evaluate_z3_re_range(
         return Nothing
 
     return Some(
-        construct_result(lambda args: f"[{args[0]}-{args[1]}]", children_results)
+        construct_result(
+            lambda args: f"[{re.escape(args[0])}-{re.escape(args[1])}]",
+            children_results,
+        )
     )
 
 
